@@ -1026,6 +1026,17 @@ func fieldPath(v ssa.Value) []string {
 			st := x.X.Type().Underlying().(*types.Struct)
 			rev = append(rev, st.Field(x.Field).Name())
 			v = x.X
+		case *ssa.Alloc:
+			// a local copy of a part of the configuration (api := s.conf.API) that is only read afterwards
+			if src := readOnlyCopy(x); src != nil {
+				v = src
+				continue
+			}
+			out := make([]string, len(rev))
+			for i := range rev {
+				out[i] = rev[len(rev)-1-i]
+			}
+			return out
 		default:
 			out := make([]string, len(rev))
 			for i := range rev {
@@ -1035,6 +1046,51 @@ func fieldPath(v ssa.Value) []string {
 		}
 	}
 	return nil
+}
+
+// readOnlyCopy: the local struct variable is assigned exactly once, as a whole, from a load, and afterwards only read
+// (its fields loaded, possibly through nested field addresses): the value it was copied from.
+func readOnlyCopy(al *ssa.Alloc) ssa.Value {
+	if _, isStruct := an.Deref(al.Type()).Underlying().(*types.Struct); !isStruct {
+		return nil
+	}
+	src := an.SingleStore(al)
+	if src == nil {
+		return nil
+	}
+	if ld, ok := src.(*ssa.UnOp); !ok || ld.Op != token.MUL {
+		return nil
+	}
+	var onlyRead func(v ssa.Value, depth int) bool
+	onlyRead = func(v ssa.Value, depth int) bool {
+		if v.Referrers() == nil || depth > 6 {
+			return false
+		}
+		for _, ref := range *v.Referrers() {
+			switch x := ref.(type) {
+			case *ssa.FieldAddr:
+				if !onlyRead(x, depth+1) {
+					return false
+				}
+			case *ssa.UnOp:
+				if x.Op != token.MUL {
+					return false
+				}
+			case *ssa.DebugRef:
+			case *ssa.Store:
+				if x.Addr != ssa.Value(al) || v != ssa.Value(al) {
+					return false
+				}
+			default:
+				return false
+			}
+		}
+		return true
+	}
+	if !onlyRead(al, 0) {
+		return nil
+	}
+	return src
 }
 
 func pathEndsWith(p []string, suffix ...string) bool {
